@@ -5,6 +5,7 @@ import GoldilocksVerif.Model.Inv
 import GoldilocksVerif.Model.Conv
 import GoldilocksVerif.Model.Ext
 import GoldilocksVerif.Model.Sponge
+import GoldilocksVerif.Model.Ntt
 import GoldilocksVerif.Gen.PosScalar
 import GoldilocksVerif.Gen.PosAvx2
 import GoldilocksVerif.Gen.PosAvx512
@@ -158,6 +159,43 @@ def c0678 (fn : String) (args : List Arg) : Option String :=
       okW (lv ++ upperLevels (fun x => (permAvx (x ++ zeros 4)).take 4) rs.length rs.length lv)
   | _, _ => none
 
+/-- C03/C04/C05/C19: a history of transform calls on ONE object.
+    nttseq <objSize> <threads> <ncalls> ( <op> <n> <next> <ncols> <nphase> <nblock> <buf> <mode> [data] )*
+    op 0 = NTT, 1 = INTT, 2 = extendPol; mode 0 = dst==src, 1 = other buffer, 2 = NULL.
+    reply: for every call the destination content, and the source content when the destination is another buffer. -/
+partial def nttCalls (o : GoldilocksVerif.Model.Ntt.Obj) (args : List Arg) (acc : List (BitVec 64)) : Except String (List (BitVec 64)) :=
+  open GoldilocksVerif.Model.Ntt in
+  match args with
+  | [] => .ok acc
+  | .w op :: .w n :: .w next :: .w ncols :: .w nphase :: .w nblock :: .w _buf :: .w mode :: .r data :: rest =>
+    let n := n.toNat; let next := next.toNat; let ncols := ncols.toNat
+    let src : Buf := data.toArray
+    let dm : DstMode := if mode.toNat = 0 then .same else if mode.toNat = 1 then .other else .null
+    if op.toNat = 2 then
+      let same := mode.toNat = 0
+      let outB : Buf := Array.replicate (next * ncols) 0xA5A5A5A5A5A5A5A5#64
+      match extendPol o same outB src next n ncols nphase.toNat nblock.toNat with
+      | .error e => .error e
+      | .ok (o', out) => nttCalls o' rest (acc ++ out.toList)
+    else
+      let dstB : Buf := Array.replicate (n * ncols) 0xA5A5A5A5A5A5A5A5#64
+      let r := if op.toNat = 0 then ntt o dm dstB src n ncols nphase.toNat nblock.toNat false false
+               else intt o dm dstB src n ncols nphase.toNat nblock.toNat false
+      match r with
+      | .error e => .error e
+      | .ok (d, s') => nttCalls o rest (acc ++ d.toList ++ (if dm = .other then s'.toList else []))
+  | _ => .error "parse"
+
+def c03 (fn : String) (args : List Arg) : Option String :=
+  match fn, args with
+  | "nttseq", .w objSize :: .w _thr :: .w _n :: rest =>
+    match GoldilocksVerif.Model.Ntt.mkObj objSize.toNat 1 with
+    | none => some "err exception"
+    | some o => match nttCalls o rest [] with
+      | .ok ws => okW ws
+      | .error e => if e == "parse" then some "err parse" else some "err signal 6"
+  | _, _ => none
+
 def handDispatch (fn : String) (args : List Arg) : Option String :=
   match c01Alias fn args with
   | some s => some s
@@ -172,6 +210,9 @@ def handDispatch (fn : String) (args : List Arg) : Option String :=
   | some s => some s
   | none =>
   match c0678 fn args with
+  | some s => some s
+  | none =>
+  match c03 fn args with
   | some s => some s
   | none => none
 
